@@ -108,6 +108,45 @@ def pred_key(p):
     raise ValueError(p)
 
 
+class PList:
+    """persistent (shared-tail) list: O(1) push and fork"""
+    __slots__ = ("head",)
+
+    def __init__(self, head=None):
+        self.head = head
+
+    def append(self, x):
+        self.head = (x, self.head)
+
+    def extend(self, xs):
+        for x in xs:
+            self.head = (x, self.head)
+
+    def copy(self):
+        return PList(self.head)
+
+    def __iter__(self):
+        out = []
+        n = self.head
+        while n is not None:
+            out.append(n[0])
+            n = n[1]
+        return iter(reversed(out))
+
+    def __len__(self):
+        k = 0
+        n = self.head
+        while n is not None:
+            k += 1
+            n = n[1]
+        return k
+
+    def __add__(self, other):
+        r = PList(self.head)
+        r.extend(other)
+        return r
+
+
 class State:
     def __init__(self):
         self.env = {}
@@ -118,14 +157,16 @@ class State:
         self.block = None
         self.prev = None
         self.pc = 0
-        self.trace = []
+        self.trace = PList()
         self.tag = ()
         self.iters = {}
-        self.wraps = []       # wrap events [(kind, inst line, k)]
-        self.notes = []
+        self.wraps = PList()  # wrap events [(kind, inst line, k)]
+        self.notes = PList()
         self.prod = {}        # product symbol -> (lin key a, lin key b)
         self.steps = 0
         self.isc = {}
+        self.parted = frozenset()
+        self.src = None
 
     def fork(self):
         s = State.__new__(State)
@@ -137,14 +178,16 @@ class State:
         s.block = self.block
         s.prev = self.prev
         s.pc = self.pc
-        s.trace = list(self.trace)
+        s.trace = self.trace.copy()
         s.tag = self.tag
         s.iters = dict(self.iters)
-        s.wraps = list(self.wraps)
-        s.notes = list(self.notes)
+        s.wraps = self.wraps.copy()
+        s.notes = self.notes.copy()
         s.prod = dict(self.prod)
         s.steps = self.steps
         s.isc = dict(self.isc)
+        s.parted = self.parted
+        s.src = self.src
         return s
 
     # ---------------------------------------------------------- ranges
